@@ -412,6 +412,10 @@ def loadfile_traces():
 
 
 def validate_traces(chk, traces):
+    # binding demonstration: a recorded trace with its last close event taken out must be rejected
+    donor = next((t for t in traces if len(t["events"]) >= 2 and t["events"][-1][0] == "close"), None)
+    if donor is not None:
+        traces = list(traces) + [dict(donor, events=donor["events"][:-1], _selftest=True)]
     d = tlc.mkscratch("zcv-rtr-")
     path = os.path.join(d, "tr.json")
     verdicts = {}
@@ -428,11 +432,15 @@ def validate_traces(chk, traces):
     if r.violation:
         raise MachineryError("TLC: %s\n%s" % (r.violation, r.error_text[:2000]))
     for i, t in enumerate(traces, 1):
+        v = verdicts.get(i)
+        clause = v["clause"] if v else "no-behaviour-of-the-specification-matches"
+        if t.get("_selftest"):
+            if clause == "accepted":
+                raise MachineryError("ZResources accepts a trace whose last close event was removed on purpose")
+            continue
         chk.evaluations += 1
         chk.traces += 1
         chk.nontrivial_count += 1
-        v = verdicts.get(i)
-        clause = v["clause"] if v else "no-behaviour-of-the-specification-matches"
         if clause != "accepted":
             chk.disagree({"clause": clause, "direction": "V", "events": t["events"], "what": t["_what"],
                           "at_event": v and v.get("at"), "class": {"clause": clause}})
